@@ -771,12 +771,34 @@ Proof.
   rewrite skipn_app, skipn_all, Nat.sub_diag. cbn [skipn app]. rewrite IH. reflexivity.
 Qed.
 
+Lemma keep_mask_map : forall A B (f : A -> B) m (l : list A), keep_mask m (map f l) = map f (keep_mask m l).
+Proof.
+  intros A B f m. induction m as [|b m IH]; intros [|x l]; cbn; try reflexivity.
+  destruct b; cbn; rewrite IH; reflexivity.
+Qed.
+
+Lemma keep_mask_incl : forall A m (l : list A), incl (keep_mask m l) l.
+Proof.
+  intros A m. induction m as [|b m IH]; intros [|x l]; cbn; try (intros y []).
+  destruct b.
+  - intros y [<-|Hy]; [left; reflexivity|right; apply IH; exact Hy].
+  - intros y Hy. right. apply IH. exact Hy.
+Qed.
+
+(* what the decision vector means: the row groups whose decision is `true`, in order *)
+Lemma keep_mask_meaning : forall A m (l : list A), keep_mask m l = map fst (filter snd (combine l m)).
+Proof.
+  intros A m. induction m as [|b m IH]; intros [|x l]; cbn; try reflexivity.
+  destruct b; cbn; rewrite IH; reflexivity.
+Qed.
+
 Lemma sel_hop_map : forall A B (f : A -> B) op l,
   sel_hop op (map f l) = bind (sel_hop op l) (fun r => Ok (map f r)).
 Proof.
-  intros A B f op l. destruct op as [s|i| | |]; cbn [sel_hop bind]; try reflexivity.
+  intros A B f op l. destruct op as [s|i| | | |m]; cbn [sel_hop bind]; try reflexivity.
   - rewrite py_slice_map. destruct (py_slice s l); reflexivity.
   - rewrite py_pick_map. destruct (py_pick i l); reflexivity.
+  - rewrite keep_mask_map. reflexivity.
 Qed.
 
 Lemma sel_hops_map : forall A B (f : A -> B) ops l,
@@ -789,12 +811,13 @@ Qed.
 
 Lemma sel_hop_incl : forall A op (l r : list A), sel_hop op l = Ok r -> incl r l.
 Proof.
-  intros A op l r H. destruct op as [s|i| | |]; cbn [sel_hop] in H.
+  intros A op l r H. destruct op as [s|i| | | |m]; cbn [sel_hop] in H.
   - destruct (py_slice s l) eqn:E; [|discriminate]. injection H as <-. eapply py_slice_incl; eauto.
   - destruct (py_pick i l) eqn:E; [|discriminate]. injection H as <-. intros x [<-|[]]. eapply py_pick_In; eauto.
   - injection H as <-. apply incl_refl.
   - injection H as <-. apply incl_refl.
   - injection H as <-. apply incl_refl.
+  - injection H as <-. apply keep_mask_incl.
 Qed.
 
 Lemma sel_hops_incl : forall A ops (l r : list A), sel_hops ops l = Ok r -> incl r l.
@@ -830,12 +853,13 @@ Section Programs.
     - cbn. rewrite with_rgs_same. reflexivity.
     - cbn [apply_hops sel_hops].
       assert (E : apply_hop ser deser h op = bind (sel_hop op (h_rgs h)) (fun l => Ok (with_rgs h l))).
-      { destruct op as [s|i| | |]; cbn [apply_hop sel_hop].
+      { destruct op as [s|i| | | |m]; cbn [apply_hop sel_hop].
         - unfold getitem_slice. destruct (py_slice s (h_rgs h)); reflexivity.
         - unfold getitem_pick. destruct (py_pick i (h_rgs h)); reflexivity.
         - unfold pickle. rewrite ser_roundtrip. reflexivity.
         - cbn. rewrite with_rgs_same. reflexivity.
-        - cbn. rewrite with_rgs_same. reflexivity. }
+        - cbn. rewrite with_rgs_same. reflexivity.
+        - reflexivity. }
       rewrite E. destruct (sel_hop op (h_rgs h)) as [l|e]; [|reflexivity]. cbn [bind].
       rewrite IH. cbn [h_rgs with_rgs]. destruct (sel_hops ops l); reflexivity.
   Qed.
